@@ -86,10 +86,8 @@ func (s *c19State) checkCtx(ctx context.Context, where string) {
 	s.ctxs = append(s.ctxs, ctx)
 }
 
-func c19Run(cfg c19Config, hist []c19Letter, oneSegment bool) explore.Result {
-	var res explore.Result
-	st := &c19State{cfg: cfg}
-	rec := &script.Rec{}
+// c19Build: parser, statement hook, middlewares, auth and terminate hook of a configuration, all probing st.
+func c19Build(cfg c19Config, st *c19State, rec *script.Rec) (wire.ParseFn, []wire.OptionFn) {
 	rec.Hook = func(ctx context.Context, where string) {
 		if where == "stmt" {
 			st.cbs = append(st.cbs, "stmt")
@@ -147,6 +145,63 @@ func c19Run(cfg c19Config, hist []c19Letter, oneSegment bool) explore.Result {
 			return nil
 		}))
 	}
+	return parse, opts
+}
+
+// c19RunFault: the transport starts to fail at the k-th write after the start-up; whatever was running then,
+// once the connection has been given up every command context handed to a callback is cancelled, the terminate
+// hook ran at most once and the connection is closed.
+func c19RunFault(cfg c19Config, hist []c19Letter, k int) explore.Result {
+	var res explore.Result
+	res.Outcome = "transport-fault"
+	res.Key = fmt.Sprint("fault", cfg.String(), c19Names(hist), k)
+	st := &c19State{cfg: cfg}
+	rec := &script.Rec{}
+	parse, opts := c19Build(cfg, st, rec)
+	one, err := harness.StartOne(parse, opts...)
+	if err != nil {
+		res.Engine = err.Error()
+		return res
+	}
+	defer one.Stop()
+	st.conn = one.C
+	rec.Conn = one.C
+	out, status := one.Step(pgproto.Startup("user", "alice"))
+	if !strings.HasSuffix(harness.Kinds(out), "Z") || status != memnet.Parked {
+		res.Engine = "startup failed: " + harness.Kinds(out)
+		return res
+	}
+	_, writes, _, _, _, _ := one.C.Snapshot()
+	one.C.SetFaults(memnet.Faults{WriteErrAt: writes + k})
+	var seg []byte
+	for _, l := range hist {
+		seg = append(seg, l.Bytes...)
+	}
+	one.Step(seg)
+	_, stt := one.End()
+	what := fmt.Sprintf("%s, history %v, write %d after the start-up fails (and every later one)", cfg, c19Names(hist), k)
+	if stt != memnet.Closed {
+		res.Fail("not-closed", fmt.Sprintf("%s: connection is %s after the input ended", what, stt))
+		return res
+	}
+	for _, c := range st.ctxs {
+		if c.Err() == nil {
+			res.Fail("context-not-cancelled", what+": a command context handed to a callback is still live after the connection has ended")
+			break
+		}
+	}
+	if st.hookCalls > 1 {
+		res.Fail("terminate-hook", fmt.Sprintf("%s: terminate hook invoked %d times", what, st.hookCalls))
+	}
+	res.Trans = []string{fmt.Sprintf("ready|write fault %d|closed", k)}
+	return res
+}
+
+func c19Run(cfg c19Config, hist []c19Letter, oneSegment bool) explore.Result {
+	var res explore.Result
+	st := &c19State{cfg: cfg}
+	rec := &script.Rec{}
+	parse, opts := c19Build(cfg, st, rec)
 	one, err := harness.StartOne(parse, opts...)
 	if err != nil {
 		res.Engine = err.Error()
@@ -357,7 +412,7 @@ func init() {
 		ID:          "C19",
 		Level:       "model_checking",
 		Technique:   "exhaustive enumeration of (middleware count, failing position, auth, terminate hook) configurations x command histories x delivery mode on a real server, judged by a lifecycle reference machine with context probes inside every callback",
-		Rule:        "m in 0..3 middlewares, failing position none|1..m (returning its context or a nil context with the error), auth none|cleartext, terminate hook absent|ok|error (60 configurations) x all histories of length <= d over {Query ok, Query err, Parse+Bind+Execute+Sync, a failing Bind without Sync, Terminate, EOF} x {message by message, one segment}",
+		Rule:        "m in 0..3 middlewares, failing position none|1..m (returning its context or a nil context with the error), auth none|cleartext, terminate hook absent|ok|error (60 configurations) x all histories of length <= d over {Query ok, Query err, Parse+Bind+Execute+Sync, a failing Bind without Sync, Terminate, EOF} x {message by message, one segment}; transport faults: 3 configurations x histories of <= 2 letters x the k-th write (k <= 8) after the start-up failing for good: every command context is cancelled once the connection has ended",
 		Assumptions: []string{"context cancellation is observed at the next quiescence on the retained context"},
 		Enumerate:   c19Enumerate,
 		Bounds: func(tier string) map[string]any {
@@ -446,6 +501,27 @@ func c19Enumerate(tier string, emit explore.Emit) {
 		}
 	}
 	letters := c19Letters()
+	// transport faults: every position of the first failing write x histories of statement-running letters
+	for _, cfg := range []c19Config{{M: 1, Hook: "absent"}, {M: 2, Hook: "ok"}, {M: 0, Hook: "error"}} {
+		cfg := cfg
+		forShapes(5, 2, func(sh []int) {
+			if len(sh) == 0 {
+				return
+			}
+			hist := make([]c19Letter, len(sh))
+			for i, s := range sh {
+				hist[i] = letters[s]
+			}
+			for k := 1; k <= 8; k++ {
+				k := k
+				emit(explore.Case{Family: "transport-fault", Size: 10 + len(hist),
+					Desc: func() any {
+						return map[string]any{"config": cfg.String(), "history": c19Names(hist), "failing_write": k}
+					},
+					Run: func() explore.Result { return c19RunFault(cfg, hist, k) }})
+			}
+		})
+	}
 	for m := 0; m <= 3; m++ {
 		for fail := 0; fail <= m; fail++ {
 			for _, auth := range []bool{false, true} {
